@@ -14,7 +14,7 @@ NonMarkers == { "// goverter: converter", "// Goverter:converter", "// goverterc
 \* where the group stands relative to the declaration
 Attachments == {"doc", "detached", "trailing", "inside"}
 \* declaration kinds; "ok" kinds may legally carry the marker
-Kinds == {"type-single", "type-spec", "type-group1", "type-group2", "type-struct", "var-block", "var-single", "const", "func"}
+Kinds == {"type-single", "type-spec", "type-group1", "type-group2", "type-struct", "var-block", "var-single", "const", "func", "import"}
 
 Groups1(M) == {<<m>> : m \in M} \cup {<<m, a>> : m \in M, a \in Items} \cup {<<a, m>> : m \in M, a \in Items}
 Groups2(M) == {<<m, a, b>> : m \in M, a \in Items, b \in Items}
